@@ -24,7 +24,7 @@ RULE = (
     "'[]a]'); (near) the same texts after 1-3 character edits over metacharacters, digits, x/u/U, "
     "braces, blanks, non-ASCII digits; (fv) the text cut into str/FormattedValue pieces as callers "
     "pass f-strings; (corner) a fixed list; thorough adds coverage-guided atheris on raw text "
-    "(empty corpus + corpus of dev/test_data patterns) in sub-processes (quick: 400 runs on shard 0 "
+    "(empty corpus + corpus of dev/test_data patterns) in sub-processes (quick: 250 seeded runs on shard 0 "
     "only). Oracle: retree.parse never raises, returns exactly one of (tree, error); an error has "
     "a cursor inside the input that render_pointer can draw; on success r=''.join(render(tree)) "
     "compiles with re, re.compile(s) must succeed too (else accepted-but-invalid), s and r agree "
@@ -45,9 +45,14 @@ warnings.simplefilter("ignore")
 
 _PLACEHOLDER = "☃"
 
-AST_OPTS = regen.Opts(astral=10, surrogates=2, complement_astral=4, overlap=3, inner_anchors=4)
-AST_OPTS_ANCHORED = regen.Opts(anchored=True, astral=12, dot_star_suffix=20)
-SPELLING = regen.Spelling(spaces_in_quantifier=2, raw_rbracket_first=30)
+# retree.parse costs ~0.4 ms per pattern character (contracts on every cursor move): keep most
+# patterns short, a quarter of them larger
+AST_OPTS = regen.Opts(astral=10, surrogates=2, complement_astral=4, overlap=3, inner_anchors=4,
+                      max_depth=2, max_terms=3, max_alts=2)
+AST_OPTS_LARGE = regen.Opts(astral=10, surrogates=2, complement_astral=4, overlap=3, inner_anchors=4)
+AST_OPTS_ANCHORED = regen.Opts(anchored=True, astral=12, dot_star_suffix=20, max_depth=2, max_terms=3,
+                               max_alts=2)
+SPELLING = regen.Spelling(hex_escape=18, spaces_in_quantifier=2, raw_rbracket_first=30)
 
 CORNERS = [
     "", "|", "()", "(", ")", "a)", "^*", "$+", "^?", "^{2}", "{", "a{", "a{2}{3}", "{3,1}", "a{3,1}",
@@ -199,7 +204,8 @@ def evaluate(pieces: Sequence[Any], strings: Sequence[str]) -> Tuple[List[Tuple[
     try:
         tree, err = retree.parse(values)
     except BaseException as e:  # noqa: totality is the property
-        fails.append((f"{pre}raises-{xbucket(e)}", f"retree.parse({shown}) raised:\n{runner.exc_text(e)}"))
+        # keyed by the raising site only: the same root cause whether or not pieces are formatted values
+        fails.append((f"raises-{xbucket(e)}", f"retree.parse({shown}) raised:\n{runner.exc_text(e)}"))
         return fails, info
 
     if (tree is None) == (err is None):
@@ -342,14 +348,21 @@ def _record(ctx: runner.Ctx, gen: str, pieces: Sequence[Any], strings: Sequence[
 
 
 def shard(ctx: runner.Ctx) -> None:
+    regen.with_roomy_stack(lambda: _shard(ctx))
+
+
+def _shard(ctx: runner.Ctx) -> None:
     from hypothesis import strategies as st
 
-    n = ctx.n(24_000, 3_000_000)
+    n = ctx.n(16_000, 2_000_000)
+    if ctx.quick and ctx.shard == 0:
+        n //= 3  # shard 0 also runs the corner cases and the atheris smoke stage
     pos_total = [0, 0]
 
     strategy = st.tuples(
         st.integers(0, 99),
-        st.one_of(regen.cases(AST_OPTS), regen.cases(AST_OPTS), regen.cases(AST_OPTS_ANCHORED)),
+        st.one_of(regen.cases(AST_OPTS), regen.cases(AST_OPTS), regen.cases(AST_OPTS_LARGE),
+                  regen.cases(AST_OPTS_ANCHORED)),
     )
 
     def one(case: Any) -> None:
@@ -405,7 +418,7 @@ def shard(ctx: runner.Ctx) -> None:
     if ctx.tier == "thorough":
         runs = ctx.n(0, 1_600_000)
     elif ctx.shard == 0:
-        runs = 400
+        runs = 250
     if runs > 0:
         _atheris_stage(ctx, runs)
 
@@ -468,7 +481,9 @@ def _atheris_stage(ctx: runner.Ctx, runs: int) -> None:
         ctx.notes["atheris_skipped_not_installed"] = 1
         return
     total = 0
-    for tag, seeded in (("empty", False), ("seeded", True)):
+    campaigns = (("empty", False), ("seeded", True)) if ctx.tier == "thorough" else (("seeded", True),)
+    per = max(50, runs // len(campaigns))
+    for tag, seeded in campaigns:
         work = pathlib.Path(ctx.scratch) / f"atheris-{tag}"  # type: ignore
         corpus = work / "corpus"
         corpus.mkdir(parents=True, exist_ok=True)
@@ -478,9 +493,11 @@ def _atheris_stage(ctx: runner.Ctx, runs: int) -> None:
         out = work / "findings.jsonl"
         env = dict(os.environ)
         env["PYTHONPATH"] = os.pathsep.join([str(deps), str(runner.VERIF), str(runner.REPO)])
-        env["C16_ATHERIS_CHILD"] = str(out)
         env["PYTHONHASHSEED"] = "0"
-        cmd = [sys.executable, "-m", "checks.c16", str(corpus), f"-runs={runs // 2}",
+        # NOTE: the child is started with -c (not -m): as __main__ the same code ran 10x slower
+        # under libFuzzer (measured), for reasons that were not worth chasing
+        cmd = [sys.executable, "-c",
+               "import checks.c16 as m; m._atheris_child(%r)" % str(out), str(corpus), f"-runs={per}",
                f"-seed={ctx.seed + (1 if seeded else 0) * 7919 + 1}", "-max_len=48", "-timeout=60",
                "-rss_limit_mb=4096", f"-artifact_prefix={work}/", "-print_final_stats=1"]
         try:
@@ -513,7 +530,7 @@ def _atheris_stage(ctx: runner.Ctx, runs: int) -> None:
                         ctx.nontrivial.add(h)
                 else:
                     ctx.fail(rec["bucket"], rec["case"], rec["message"])
-        if proc.returncode != 0 and done < runs // 2 - 1:
+        if proc.returncode != 0 and done < per - 1:
             # libFuzzer itself stopped (crash of the interpreter, timeout, oom): a finding of its own
             ctx.fail(f"atheris-campaign-aborted:{tag}", {"pieces": [], "strings": []},
                      f"exit {proc.returncode} after {done} runs\n{tail}")
@@ -540,6 +557,12 @@ def _atheris_child(out_path: str) -> None:
             stats["classes"][c] = stats["classes"].get(c, 0) + 1
         if info["outcome"] == "accepted" and (info["quantifier"] or info["set"]):
             stats["nontrivial"].add(runner.jhash([regen.enc(s)]))
+        if stats["inputs"] >= 100:
+            # libFuzzer leaves with _exit(): no atexit, so the counters are written as deltas
+            fh.write(json.dumps({"kind": "stats", "inputs": stats["inputs"], "classes": stats["classes"],
+                                 "nontrivial": sorted(stats["nontrivial"])}) + "\n")
+            fh.flush()
+            stats["inputs"], stats["classes"], stats["nontrivial"] = 0, {}, set()
         for b, m in fails:
             size = len(s)
             if b not in seen_buckets or size < seen_buckets[b]:
@@ -548,16 +571,8 @@ def _atheris_child(out_path: str) -> None:
                 fh.write(json.dumps({"bucket": b, "case": _case_json([s], keep), "message": m[:3000]}) + "\n")
                 fh.flush()
 
-    def flush_stats() -> None:
-        fh.write(json.dumps({"kind": "stats", "inputs": stats["inputs"], "classes": stats["classes"],
-                             "nontrivial": sorted(stats["nontrivial"])[:20000]}) + "\n")
-        fh.flush()
-
-    import atexit
-
-    atexit.register(flush_stats)
     atheris.Setup(sys.argv, one_input)
-    atheris.Fuzz()
+    regen.with_roomy_stack(atheris.Fuzz)
 
 
 # ---------------------------------------------------------------------------
@@ -602,7 +617,4 @@ def health(m: Any, tier: str) -> Any:
 
 
 if __name__ == "__main__":
-    if os.environ.get("C16_ATHERIS_CHILD"):
-        _atheris_child(os.environ["C16_ATHERIS_CHILD"])
-    else:
-        runner.main(sys.modules[__name__])
+    runner.main(sys.modules[__name__])
